@@ -290,7 +290,9 @@ func sameTBSSet(a, b [][]byte) bool {
 	}
 	x := append([][]byte(nil), a...)
 	y := append([][]byte(nil), b...)
-	less := func(s [][]byte) func(i, j int) bool { return func(i, j int) bool { return bytes.Compare(s[i], s[j]) < 0 } }
+	less := func(s [][]byte) func(i, j int) bool {
+		return func(i, j int) bool { return bytes.Compare(s[i], s[j]) < 0 }
+	}
 	sort.Slice(x, less(x))
 	sort.Slice(y, less(y))
 	return sameTBSList(x, y)
